@@ -44,6 +44,11 @@ Mechanism keys:
     cancel-misrouted|over-10-pending|queued-as-service-request|<Exc>-escaped   the 11th pending cancel is put on the
                                                               message queue and later served as a request: the exception
                                                               escapes and ends the association's reactor thread
+Recorded only (outside the statement): counter `subop_spins_after_ner_reset_is_paused` - the N-EVENT-REPORT thread's
+_serve_request also sets Association._is_paused = False; the next C-STORE sub-operation of the running C-GET then spins
+forever in send_c_store()'s wait-for-pause loop (two stack snapshots; such a case is explained, not inconclusive).
+Witnesses / triage: tools/triage_C23.py (plain script); candidate fix: tools/C23_candidate_fix.diff; mutants:
+tools/C23_mutants.py.
 """
 from __future__ import annotations
 
@@ -710,7 +715,17 @@ def run_case(case):
                     if v is None or v["type"] in ("RELRP", "EOF", "ABORT"):
                         break
     finally:
+        spin = None
+        if drv is not None and drv.stopped and not drv.dead:
+            spin = _paused_spin()
         ctl.release_all()
+        if spin:
+            # harness clean-up only (after the observation): let the spinning thread leave its loop
+            for a in list(taps.State.assocs):
+                try:
+                    a._is_paused = True
+                except Exception:
+                    pass
         try:
             if peer is not None:
                 peer.close()
@@ -795,11 +810,38 @@ def run_case(case):
         inconclusive = "harness log inconsistent: " + "; ".join(problems[:3])
     elif any(e["k"] == "gate-timeout" for e in ev):
         inconclusive = "a handler gate timed out (driver stopped: %s)" % drv.stopped
+    elif drv.stopped and spin and any(n["b"] != INF for n in ners):
+        # outside the statement of C23 (recorded, reported in the evidence): the N-EVENT-REPORT thread's
+        # _serve_request also resets Association._is_paused, and a later C-STORE sub-operation of the running C-GET
+        # waits for it forever
+        counters["subop_spins_after_ner_reset_is_paused"] = 1
+        sample["spin"] = spin
     elif drv.stopped and not violations:
         inconclusive = "driver stopped: %s; escaped=%r" % (drv.stopped, excs[:2])
     nontrivial = bool(verdicts) and (bool(cancels) or c["ner_served"] > 0)
     return dict(key=sig, nontrivial=nontrivial, sample=sample, violations=violations, counters=counters,
                 inconclusive=inconclusive)
+
+
+def _paused_spin():
+    """Two stack snapshots 0.25 s apart: a thread sitting in Association.send_c_*'s wait-for-pause loop."""
+    import sys
+    import traceback
+
+    def snap():
+        out = set()
+        for tid, fr in sys._current_frames().items():
+            st = traceback.extract_stack(fr)
+            if st and st[-1].name.startswith("send_") and st[-1].filename.endswith("association.py") \
+                    and "sleep" in (st[-1].line or ""):
+                out.add((tid, st[-1].name))
+        return out
+    a = snap()
+    if not a:
+        return None
+    time.sleep(0.25)
+    both = a & snap()
+    return sorted(n for _, n in both) or None
 
 
 def _brief(case):
